@@ -51,7 +51,8 @@ CHECKS = {
         technique="deterministic simulation with the library's random source as the owned seam (recording / scripted / extreme SimRandom on passlib.utils.rng and secrets._sysrand): conditional-bijection check between recorded draws and produced values, bit-flip fault injection at the source, exhaustive scripted enumeration for spaces <= 2^16, Chernoff-bounded statistics",
         text="The single SystemRandom object every generator in passlib draws from (and libpass' secrets source) is replaced by a simulator-owned "
              "source that records each request and can be scripted. For every produced value (random bytes/strings, salts of 15 hashers x "
-             "admissible sizes read back by the independent extractor, TOTP keys, application secrets, generated words/phrases, django_disabled "
+             "admissible sizes read back by the independent extractor, salts of the other 33 registered handlers that draw one (read back "
+             "through the handler's own parser; cisco_type7's integer salt as a 16-value space), TOTP keys, application secrets, generated words/phrases, django_disabled "
              "suffixes, libpass salts) the run sees draws and value side by side: size and alphabet; the draws must be able to cover the declared "
              "space; when draw space and value space have the same size, uniformity is equivalent to injectivity, which is checked over the "
              "sample and by flipping single bits of a recorded answer and replaying (the value must change); for spaces <= 2^16 ALL "
@@ -146,6 +147,7 @@ CHECKS = {
              "path, an unbound copy -- starting from generated files (comments, blank lines, duplicates, CRLF, no final newline, leading blanks, "
              "malformed lines), both classes, utf-8/latin-1, text/bytes arguments, default and custom contexts with deprecated schemes. The file "
              "system, its mtime clock (granularity 1 ns .. 2 s, ticks below/above it, steps back), an external editor rewriting the file directly "
+             "(between operations, or -- fault write_during_read -- while a load has consumed N bytes of the old content) "
              "and armed I/O faults are simulated; copies are saved to / loaded from a second path and objects are re-bound. After every operation the export (and after every save the file) is parsed by an independent "
              "20-line reader and must equal the document model's users/hashes, each once, with untouched items in original order; return values, "
              "check_password answers, hash upgrade on deprecated schemes, refusal of invalid names, atomic load, intact memory after a failed "
@@ -159,13 +161,15 @@ CHECKS = {
         text="Account records (a hash of any palette scheme, None, empty, a bare marker, either marker style with an embedded original, a "
              "Django-style unusable password) evolve under disable (with/without the current hash), disable again, enable, logins with the "
              "right / wrong / empty password and with the record text itself, is_enabled, with unix_disabled (markers '!'/'*', configured "
-             "or default) or django_disabled at a random list position, and with policy updates and restarts in between. A reference grammar "
-             "decides every answer; 'verification against None costs a dummy verification' is observed deterministically as digest "
+             "or default) or django_disabled at a random list position (optionally with plaintext / ldap_plaintext listed last, which also claims "
+             "marker-prefixed text), and with policy updates and restarts in between. A reference grammar decides every answer; which scheme "
+             "owns a record is computed without the context (first configured scheme whose own identify() claims it) and the context's "
+             "identify() is judged against it; 'verification against None costs a dummy verification' is observed deterministically as digest "
              "computations of the default scheme counted through a counting subclass given in schemes= (one per call, one more right after "
              "construction or a policy (re)load). Weaker fit: disable/enable are string functions; the simulator supplies histories and the "
              "counting seam.",
-        note="Strings the context attributes to another scheme than the grammar expects ('*' + 40 hex is also mysql41) are outside the model; mysql41 "
-             "is therefore not combined with disabled-account schemes.",
+        note="Strings the attribution rule gives to another scheme than the grammar expects ('*' + 40 hex is also mysql41; everything is plaintext) "
+             "are outside the model: mysql41 is not combined with disabled-account schemes, plaintext schemes are listed last only.",
         design_ref="DESIGN.md section 4, C18"),
     "C19": dict(
         level="exploration",
@@ -174,12 +178,15 @@ CHECKS = {
              "onload, a shipped preset, a multi-backend hasher, a lazy base64 engine, an unloaded registry name, a context's record "
              "caches, the digest-info cache, passlib.pwd's word sets, a libpass context) or an initialised shared context with a "
              "non-reentrant crypt(3) model, and lets 2-3 real "
-             "threads make their first calls while a seeded scheduler decides at every source line of /repo code who runs next. Every "
+             "threads make their first calls (for the registry also: sibling names hosted by one not-yet-imported module, and first "
+             "verify through a freshly imported handler) while a seeded scheduler decides at every source line of /repo code who runs next. Every "
              "lock object the library keeps is replaced by a cooperative lock with the same semantics, so parked threads never block "
-             "the simulator and deadlocks are detected. Each thread's outcomes must equal those of the same calls made by one thread in "
+             "the simulator and deadlocks are detected; in a share of the runs importlib's per-module import locks wait cooperatively "
+             "too and module / class bodies of imports made by the threads are pre-emptible (a half-built module sits in sys.modules). Each thread's outcomes must equal those of the same calls made by one thread in "
              "another fresh process. A failing schedule is kept as its switch list, minimised, and replays bit-identically.",
         note="Samples schedules (PCT depth <=3, sticky p 0.005-0.3, hot-spot plans on 17 anchor functions); pre-emption between source lines "
-             "(bytecodes in hot functions in the thorough tier) under the GIL build; code in C and module-level code of imports is not interleaved.",
+             "(bytecodes in hot functions in the thorough tier) under the GIL build; code in C is not interleaved; module bodies of imports are "
+             "interleaved only in runs with preempt_imports (70% of registry runs, 10-25% elsewhere).",
         design_ref="DESIGN.md sections 3.4 and 4, C19"),
 }
 
